@@ -32,6 +32,15 @@ def special_cell(rng):
         if rng.random() < 0.2:
             c = a
         ang = [rng.choice([90.0, 90.0, 60.0, 120.0, round(rng.uniform(35, 145), 2)]) for _ in range(3)]
+        if rng.random() < 0.12:
+            ang = [90.0, 90.0, rng.choice([90.0, 90.0, 120.0])]       # orthogonal / hexagonal metric (then, three times in ten, sheared by a tiny amount below)
+        if rng.random() < 0.3:
+            # almost special: angles 1e-9 .. 5e-4 degrees away from 90 / 60 / 120, axes equal to within 1e-9 .. 1e-4 (slightly sheared / strained high-symmetry cells)
+            ang = [x + rng.choice([-1, 1]) * 10 ** rng.uniform(-9, -3.3) if x in (90.0, 60.0, 120.0) and rng.random() < 0.9 else x for x in ang]
+            if b == a:
+                b = a * (1 + rng.choice([-1, 1]) * 10 ** rng.uniform(-9, -4))
+            if c == a:
+                c = a * (1 + rng.choice([-1, 1]) * 10 ** rng.uniform(-9, -4))
         if gram(*ang) >= 0.02:
             return [a, b, c] + ang
 
